@@ -258,3 +258,14 @@ Proof.
   split; [apply occursb_spec; vm_compute; reflexivity|vm_compute; reflexivity].
 Qed.
 Print Assumptions plain_can_spell_a_style_tag_refuted.
+(* the stream-level statement applied: an undecorated, unindented output with the plain formatter over clikit's <b> *)
+Definition ex_plain_out : outp :=
+  {| o_indent := 0; o_on := false; o_sec := false;
+     o_fmt := match new_formatter FPlain [Examples.cs_b] with Ok f => f | Err _ => {| f_kind := FNull; f_styles := []; f_stack := [] |} end;
+     o_buf := [] |}.
+Example undecorated_write_line_instance :
+  f_kind (o_fmt ex_plain_out) = FPlain /\
+  match do_write ex_plain_out WWriteLine ex_wf_msg with
+  | Ok o' => str_eqb (o_buf o') ([97;32;120;32;121;32;60;110;111;112;101;62;122;10]%N)    (* a x y <nope>z NL *)
+  | Err _ => false end = true.
+Proof. vm_compute. split; reflexivity. Qed.
